@@ -766,7 +766,10 @@ namespace trompeloeil {
     virtual
     ~tracer()
     {
-      set_tracer(previous);
+      for (auto p = &tracer_obj(); *p; p = &(*p)->previous)
+      {
+        if (*p == this) { *p = previous; break; }
+      }
     }
   private:
     tracer* previous = set_tracer(this);
